@@ -159,14 +159,17 @@ const SPECIALS: [u32; 14] = [
 ];
 
 pub fn gen_vector(rng: &mut StdRng, dim: usize, p: &Profile, grid: bool) -> Vec<u32> {
+    // now and then a whole vector is scaled far down or up: margins and distances then live at
+    // magnitudes where absolute thresholds (epsilons) in the code would matter
+    let scale: f32 = if rng.gen_bool(0.07) { *[1e-8f32, 1e-12, 1e-5, 1e6].choose(rng).unwrap() } else { 1.0 };
     (0..dim)
         .map(|_| {
             if rng.gen_bool(p.special_values) {
                 *SPECIALS.choose(rng).unwrap()
             } else if grid {
-                (rng.gen_range(-2i32..=2) as f32).to_bits()
+                (rng.gen_range(-2i32..=2) as f32 * scale).to_bits()
             } else {
-                rng.gen_range(-1.0f32..1.0).to_bits()
+                (rng.gen_range(-1.0f32..1.0) * scale).to_bits()
             }
         })
         .collect()
